@@ -426,28 +426,37 @@ func VerifC04_ClaimChildren() {
 	log := w.Srv.Log
 	rt.Observe("requests", len(log))
 	rt.Observe("err", err != nil)
-	rt.Assert(len(log) == len(exp), "requests/count-differs-from-expected")
-	parentGets, firstParentGet, firstAdoptWrite := 0, -1, -1
+	// The property fixes WHAT is written and that a live read of the parent
+	// precedes every adoption write; how often and when the implementation
+	// reads (parent or child) is its own business, so only the writes are
+	// compared position by position.
+	var uexp []verifC04Exp
+	for _, e := range exp {
+		if e.verb == "update" {
+			uexp = append(uexp, e)
+		}
+	}
+	nUpd := 0
+	firstParentGet, firstAdoptWrite := -1, -1
 	for j, r := range log {
+		rt.Assert(r.NS == "ns", "requests/unexpected-namespace")
 		if r.Resource == "things" {
 			rt.Assert(r.Verb == "get", "parent/written-by-claim")
-			if r.Verb == "get" {
-				parentGets++
-				if firstParentGet < 0 {
-					firstParentGet = j
-				}
+			if r.Verb == "get" && firstParentGet < 0 {
+				firstParentGet = j
 			}
 		}
-		if j < len(exp) {
-			rt.Assert(r.Verb == exp[j].verb, "requests/unexpected-verb")
-			rt.Assert(r.Resource == exp[j].res, "requests/unexpected-resource")
-			rt.Assert(r.Name == exp[j].name, "requests/unexpected-target")
-			rt.Assert(r.NS == "ns", "requests/unexpected-namespace")
+		if r.Verb == "update" {
+			if nUpd < len(uexp) {
+				rt.Assert(r.Resource == uexp[nUpd].res, "requests/unexpected-resource")
+				rt.Assert(r.Name == uexp[nUpd].name, "requests/unexpected-target")
+			}
+			nUpd++
 		}
 		rt.Assert(r.Verb == "get" || r.Verb == "update", "requests/verb-other-than-get-update")
 		rt.Assert(r.Sub == "", "requests/subresource")
 	}
-	rt.Assert(parentGets <= 1, "recheck/more-than-once-per-pass")
+	rt.Assert(nUpd == len(uexp), "requests/writes-differ-from-expected")
 
 	// every write: which child, what kind, body = live object with only ownerReferences changed
 	for j, r := range log {
@@ -724,27 +733,36 @@ func VerifC04_RevisionClaims() {
 	log := w.Srv.Log
 	rt.Observe("requests", len(log))
 	rt.Observe("err", err != nil)
-	rt.Assert(len(log) == len(exp), "requests/count-differs-from-expected")
-	parentGets, firstParentGet, firstAdoptWrite := 0, -1, -1
+	// The property fixes WHAT is written and that a live read of the parent
+	// precedes every adoption write; how often and when the implementation
+	// reads (parent or child) is its own business, so only the writes are
+	// compared position by position.
+	var uexp []verifC04Exp
+	for _, e := range exp {
+		if e.verb == "update" {
+			uexp = append(uexp, e)
+		}
+	}
+	nUpd := 0
+	firstParentGet, firstAdoptWrite := -1, -1
 	for j, r := range log {
+		rt.Assert(r.NS == "ns", "requests/unexpected-namespace")
 		if r.Resource == "things" {
 			rt.Assert(r.Verb == "get", "parent/written-by-claim")
-			if r.Verb == "get" {
-				parentGets++
-				if firstParentGet < 0 {
-					firstParentGet = j
-				}
+			if r.Verb == "get" && firstParentGet < 0 {
+				firstParentGet = j
 			}
 		}
-		if j < len(exp) {
-			rt.Assert(r.Verb == exp[j].verb, "requests/unexpected-verb")
-			rt.Assert(r.Resource == exp[j].res, "requests/unexpected-resource")
-			rt.Assert(r.Name == exp[j].name, "requests/unexpected-target")
-			rt.Assert(r.NS == "ns", "requests/unexpected-namespace")
+		if r.Verb == "update" {
+			if nUpd < len(uexp) {
+				rt.Assert(r.Resource == uexp[nUpd].res, "requests/unexpected-resource")
+				rt.Assert(r.Name == uexp[nUpd].name, "requests/unexpected-target")
+			}
+			nUpd++
 		}
 		rt.Assert(r.Verb == "get" || r.Verb == "update", "requests/verb-other-than-get-update")
 	}
-	rt.Assert(parentGets <= 1, "recheck/more-than-once-per-pass")
+	rt.Assert(nUpd == len(uexp), "requests/writes-differ-from-expected")
 	for j, r := range log {
 		if r.Verb != "update" {
 			continue
